@@ -193,7 +193,7 @@ fn one(entry: &str, s: &str) -> Value {
         }
         k => {
             let astv = ASTWithValidityInfo::new(yacckind(&k[5..]), s);
-            let warnings = astv.ast().warnings().iter().map(|w| json!({"kind": w.to_string(), "spans": spans_of(w)})).collect::<Vec<_>>();
+            let warnings = astv.ast().warnings().iter().map(|w| errj(s, w)).collect::<Vec<_>>();
             match YaccGrammar::<u32>::new_from_ast_with_validity_info(&astv) {
                 Ok(_) => json!({"class": "ok", "errors": [], "warnings": warnings}),
                 Err(es) => {
